@@ -53,6 +53,7 @@ class Builder:
         self.allow_empty = False
         self.const_flag_odds = 11
         self.ufunc_options = False
+        self.ufunc_where = True
         self.allow_const_false = False
 
     # ---- low-level emit
@@ -476,7 +477,7 @@ def draw_ufunc_options(b, name, shapes):
     d = b.draw
     out = {}
     r = d(st.integers(0, 7))
-    if r in (0, 1):
+    if r in (0, 1) and b.ufunc_where:
         shape = list(np.broadcast_shapes(*[tuple(s_) for s_ in shapes]))
         k = d(st.integers(0, len(shape)))
         wshape = [1 if d(st.integers(0, 4)) == 0 else x for x in shape[k:]]
@@ -830,9 +831,10 @@ def shape_variant(draw, base):
 @st.composite
 def functional_program(draw, max_ops=10, min_ops=1, max_elems=24, allow_int=True, allow_const_flag=True,
                        allow_const_view=True, dtypes=("float64",), leaf_kinds=None, const_flag_odds=11,
-                       allow_const_false=False, ufunc_options=False):
+                       allow_const_false=False, ufunc_options=False, ufunc_where=True):
     b = Builder(draw, max_elems=max_elems, allow_int=allow_int)
     b.ufunc_options = ufunc_options
+    b.ufunc_where = ufunc_where
     b.allow_const_flag = allow_const_flag
     b.allow_const_view = allow_const_view
     b.const_flag_odds = const_flag_odds
